@@ -115,6 +115,28 @@ def parse_kani(out):
     return status, failed, cov, stats
 
 
+class Slot:
+    """a cargo target dir owned exclusively (across processes) while held"""
+
+    def __init__(self):
+        import fcntl
+        d = os.path.join(BUILD, "slots")
+        os.makedirs(d, exist_ok=True)
+        while True:
+            for i in range(32):
+                f = open(os.path.join(d, f"slot{i}.lock"), "w")
+                try:
+                    fcntl.flock(f, fcntl.LOCK_EX | fcntl.LOCK_NB)
+                    self.f, self.id = f, i
+                    return
+                except OSError:
+                    f.close()
+            time.sleep(1)
+
+    def release(self):
+        self.f.close()
+
+
 def run_one(h, slot, extra_args=(), log_dir=None, harness_dir=None):
     tdir = os.path.join(BUILD, f"kt{slot}")
     cmd = ["cargo", "kani", "--target-dir", tdir, "--exact", "--harness", h.name] + list(h.flags)
@@ -161,7 +183,14 @@ def run_pool(harnesses, jobs=None, mem_budget_gb=52, log_dir=None, progress=True
     mem_used = [0]
     cond = threading.Condition(lock)
 
-    def worker(slot):
+    def worker(_n):
+        sl = Slot()
+        try:
+            worker_loop(sl.id)
+        finally:
+            sl.release()
+
+    def worker_loop(slot):
         while True:
             with cond:
                 while True:
